@@ -67,11 +67,37 @@ func (drp *dynamicResourcesPlugin) Allocate(
 	return nil
 }
 
-// UnAllocate cleans up Resource Claim allocation
+// UnAllocate removes the pod's reservation (and an allocation nobody else uses) from its Resource Claims
 func (drp *dynamicResourcesPlugin) UnAllocate(
-	_ context.Context, _ *corev1.Pod, _ string, _ ksf.CycleState,
+	ctx context.Context, pod *corev1.Pod, _ string, _ ksf.CycleState,
 ) {
-	return
+	logger := log.FromContext(ctx)
+	for _, podClaim := range pod.Spec.ResourceClaims {
+		claimName, err := resources.GetResourceClaimName(pod, &podClaim)
+		if err != nil {
+			continue
+		}
+		err = retry.RetryOnConflict(retry.DefaultRetry, func() error {
+			claim, err := drp.client.ResourceV1().ResourceClaims(pod.Namespace).Get(ctx, claimName, v1.GetOptions{})
+			if err != nil {
+				return err
+			}
+			claim = claim.DeepCopy()
+			before := len(claim.Status.ReservedFor)
+			resources.RemoveReservedFor(claim, pod)
+			if len(claim.Status.ReservedFor) == before {
+				return nil
+			}
+			if len(claim.Status.ReservedFor) == 0 {
+				claim.Status.Allocation = nil
+			}
+			_, err = drp.client.ResourceV1().ResourceClaims(pod.Namespace).UpdateStatus(ctx, claim, v1.UpdateOptions{})
+			return err
+		})
+		if err != nil {
+			logger.Error(err, "failed to release resource claim", "claim", claimName, "pod", pod.Name)
+		}
+	}
 }
 
 // Bind binds Resource Claims to the task according to the allocation status from the bind request
